@@ -68,6 +68,18 @@ def run_one(patch: str, with_tests: bool, tier: str, props_override: list[str] |
             p = subprocess.run([os.path.join(VERIF, "check"), pr, "--tier", tier, "--no-evidence"],
                                cwd=VERIF, env=env2, capture_output=True, text=True)
             viol = [l for l in p.stdout.splitlines() if l.startswith("VIOLATION")]
+            # keep the (shrunk) failing case as a regression case of the property
+            for l in viol[:1]:
+                rp = l.split("replay=", 1)[1].strip()
+                if rp.startswith("replays/") and pr == prop:
+                    dst = os.path.join(VERIF, "regressions", pr, f"mut_{name}.json")
+                    os.makedirs(os.path.dirname(dst), exist_ok=True)
+                    try:
+                        data = json.load(open(os.path.join(VERIF, rp)))
+                        data["note"] = f"shrunk case that kills mutants/{prop}/{name}.patch"
+                        json.dump(data, open(dst, "w"), indent=1, sort_keys=True)
+                    except Exception:
+                        pass
             detail = [l for l in p.stdout.splitlines() if l.startswith("  [")]
             checks[pr] = {"exit": p.returncode, "violations": len(viol), "detail": [d[:300] for d in detail[:4]],
                           "s": round(time.time() - t0, 1), "stderr": p.stderr.strip()[-400:] if p.returncode == 2 else ""}
